@@ -68,7 +68,7 @@ func (h *hookCtl) hit(point string) error {
 		delete(h.errNext, point)
 		h.errHits[point]++
 		h.c.Fault("err@" + point)
-		h.c.Log.Add("hook %s: injected error", point)
+		logf(h.c, "hook %s: injected error", point)
 		return e
 	}
 	if h.crashed {
@@ -76,12 +76,12 @@ func (h *hookCtl) hit(point string) error {
 	}
 	h.seq = append(h.seq, point)
 	if h.logHits {
-		h.c.Log.Add("hook %d %s", len(h.seq), point)
+		logf(h.c, "hook %d %s", len(h.seq), point)
 	}
 	if h.crashAt > 0 && len(h.seq) == h.crashAt {
 		h.crashed = true
 		h.crashPt = point
-		h.c.Log.Add("CRASH at hook %d %s", len(h.seq), point)
+		logf(h.c, "CRASH at hook %d %s", len(h.seq), point)
 		h.onCrash(point)
 	}
 	return nil
@@ -347,3 +347,15 @@ func snapDirs(dir string) (n int, staged int) {
 }
 
 var _ = store.ErrNotOpen
+
+// clean removes the run's scratch directory (which differs between processes)
+// from a message, so that violation details and log lines are replayable.
+func clean(c *core.Ctx, s string) string { return strings.ReplaceAll(s, c.Dir, "<dir>") }
+
+func violate(c *core.Ctx, class, format string, a ...any) {
+	c.Violate(class, "%s", clean(c, fmt.Sprintf(format, a...)))
+}
+
+func logf(c *core.Ctx, format string, a ...any) {
+	c.Log.Add("%s", clean(c, fmt.Sprintf(format, a...)))
+}
